@@ -58,9 +58,32 @@ class SolverStub:
             d = lift(B[0, 0] * (B[1, 1] * B[2, 2] - B[1, 2] * B[2, 1]) - B[0, 1] * (B[1, 0] * B[2, 2] - B[1, 2] * B[2, 0]) + B[0, 2] * (B[1, 0] * B[2, 1] - B[1, 1] * B[2, 0]))
         else: d = None
         if d is not None and n > 0: sx.ctx().assume(d != 0)
+        self.Binv = None
+        if d is None and n > 0:
+            # larger systems: "B nonsingular" as the existence of a two-sided inverse (fresh symbols with B Binv = Binv B = I)
+            c = sx.ctx()
+            self.Binv = np.empty((n, n), dtype=object)
+            for i in range(n):
+                for j in range(n): self.Binv[i, j] = c.fresh('binv')
+            P1 = self.B.dot(self.Binv); P2 = self.Binv.dot(self.B)
+            for i in range(n):
+                for j in range(n):
+                    c.assume(lift(P1[i, j]) == (1 if i == j else 0)); c.assume(lift(P2[i, j]) == (1 if i == j else 0))
         self.shape = self.B.shape
     def dot(self, r):
         c = sx.ctx(); r = np.asarray(r, dtype=object).ravel(); n = r.shape[0]
+        # a right-hand side that is identically zero has the unique solution zero (B is nonsingular): no fresh symbols needed
+        try:
+            if all(z3.is_rational_value(t) and t.numerator_as_long() == 0 for t in (z3.simplify(sx._toreal(lift(v)), som=True) for v in r)):
+                y0 = np.empty(n, dtype=object); y0[...] = 0
+                ns_log = getattr(self, 'log', None)
+                return y0
+        except Exception:
+            pass
+        if self.Binv is not None:
+            y = self.Binv.dot(r)
+            if hasattr(self, '_log'): pass
+            return y
         y = np.empty(n, dtype=object)
         for i in range(n): y[i] = c.fresh('y')
         By = self.B.dot(y)
@@ -417,6 +440,25 @@ def localmg_energy_harness(ns, nf, nc, inds_f, inds_c):
     return run
 
 
+REPLAY_LOCALMG = r'''
+import sys, json, numpy as np, scipy.sparse, types
+w = json.load(sys.stdin)
+from pyiga import solvers
+nf, nc = w['nf'], w['nc']
+rng = np.random.RandomState(6)
+bad = []
+for trial in range(5):
+    L = np.tril(rng.rand(nf, nf)) + np.eye(nf); A = L @ L.T
+    P = rng.rand(nf, nc) + 0.1
+    xs = rng.randn(nf); f = A @ xs
+    hs = types.SimpleNamespace(numlevels=2)
+    step = solvers.local_mg_step(hs, scipy.sparse.csr_matrix(A), f, [scipy.sparse.csr_matrix(P)], [np.array(w['inds_c'], dtype=np.intc), np.array(w['inds_f'], dtype=np.intc)], smoother=w['smoother'], smooth_steps=1)
+    y = step(xs.copy())
+    if not np.allclose(y, xs, rtol=1e-9, atol=1e-10): bad.append('exact solution moved by %.3g' % abs(y - xs).max())
+print(json.dumps({'reproduced': bool(bad), 'bad': bad[:3]}))
+'''
+
+
 REPLAY_ENERGY = r'''
 import sys, json, numpy as np, scipy.sparse, types
 from fractions import Fraction as F
@@ -560,7 +602,9 @@ def main():
                 bound = {'nf': nf, 'nc': nc, 'smoother': smoother, 'fine smoothing set': inf_, 'coarse set': inc}
                 run.absorb(st, 'local-multigrid-fixed-point', bound=bound, sample={'obligation': 'local_mg_step fixed point', **bound})
                 for cex in st.cex:
-                    run.report('local_mg_step:%s' % smoother, 'local_mg_step(%s) moves the exact solution: %s' % (smoother, cex['name']), {'kind': 'localmg', **bound}, True)
+                    rr = realbuild.run_real(REPLAY_LOCALMG, {'nf': nf, 'nc': nc, 'inds_f': inf_, 'inds_c': inc, 'smoother': smoother}, only=['relaxation_cy'])
+                    run.report('local_mg_step:%s' % smoother, 'local_mg_step(%s) moves the exact solution: %s; real run: %s' % (smoother, cex['name'], rr['bad']), {'kind': 'localmg', **bound}, rr['reproduced'])
+                    break
     if run.want('localmg'):
         ecfg = [(2, 1, [1], [0]), (3, 2, [0, 2], [0, 1]), (3, 1, [1, 2], [0])] + ([(3, 2, [0, 1, 2], [1]), (4, 2, [1, 3], [0, 1])] if thorough else [])
         for (nf, nc, inf_, inc) in ecfg:
